@@ -1,7 +1,7 @@
 """Property id -> rules, and the texts that go to MANIFEST / evidence."""
 from .rules import (
     optab, sign, role, memo, state, reord, handles, raw, domain, formats,
-    grammar, cyts, misc)
+    grammar, cyts, misc, hygiene)
 
 PROPS = dict()
 NOT_BUILT = dict()
@@ -12,7 +12,21 @@ GENERIC = (
     'executed): ')
 
 
+HYGIENE = [hygiene.r_falsy, hygiene.r_enum, hygiene.r_cache,
+           hygiene.r_alias, hygiene.r_term]
+HYGIENE_TEXT = (
+    ' Repository conventions over every function reachable from the '
+    'property\'s entry points: optional arguments, lookup results and '
+    'levels never tested by truthiness; dictionary position never used as '
+    'level; nothing memoised across changes of the manager; no accessor '
+    'returns a manager table; terminal shortcuts keep the sign.')
+
+
 def prop(pid, rules, decides, not_decided, technique, cython=False):
+    from . import scope
+    if pid in scope.ENTRY:
+        rules = list(rules) + HYGIENE
+        decides = decides + HYGIENE_TEXT
     PROPS[pid] = dict(
         rules=rules, explanation=GENERIC + decides,
         not_decided=not_decided, technique=technique, cython=cython)
